@@ -341,7 +341,6 @@ func (l *Lowerer) uf(t *Term) string {
 	}
 	app := "(" + name + " " + strings.Join(as, " ") + ")"
 	if l.be == BackendINT && t.Sort == SBV {
-		l.asserts = append(l.asserts, fmt.Sprintf("(and (<= 0 %s) (< %s %s))", app, app, pow2(uint(t.W))))
 		lo, hi := bigZero, maxOfW(t.W)
 		if v, ok := l.varLo[t]; ok {
 			lo = v
@@ -349,6 +348,7 @@ func (l *Lowerer) uf(t *Term) string {
 		if v, ok := l.varHi[t]; ok {
 			hi = v
 		}
+		l.asserts = append(l.asserts, fmt.Sprintf("(and (<= %s %s) (<= %s %s))", lo, app, app, hi))
 		l.ivl[t] = [2]*big.Int{lo, hi}
 	}
 	return app
@@ -951,7 +951,9 @@ func (l *Lowerer) intBV(t *Term) string {
 		key := "(range " + name + ")"
 		if !l.declSet[key] {
 			l.declSet[key] = true
-			l.asserts = append(l.asserts, fmt.Sprintf("(and (<= 0 %s) (<= %s %s))", name, name, full))
+			// the interval refined by the path facts is asserted with the variable: the facts themselves are
+			// lowered under that interval and may simplify to true
+			l.asserts = append(l.asserts, fmt.Sprintf("(and (<= %s %s) (<= %s %s))", lo, name, name, hi))
 		}
 		l.setiv(t, lo, hi)
 		return name
